@@ -160,6 +160,9 @@ func SignTaproot(config *TaprootConfig, signers []party.ID, messageHash []byte) 
 	}
 	genericVerificationShares := make(map[party.ID]curve.Point)
 	for k, v := range config.VerificationShares {
+		if v == nil {
+			return startError(errors.New("frost.SignTaproot: config is nil or incomplete"))
+		}
 		genericVerificationShares[k] = v
 	}
 	normalResult := &keygen.Config{
